@@ -80,6 +80,35 @@ def state_laws():
             for j in range(i, len(a) + 1):
                 if not isinstance(A[i:j], lw.State) or A[i:j].s != a[i:j]:
                     fails.append((a, f"slice {i}:{j}"))
+        # every slice form, as for a list: omitted / negative / out-of-range bounds, steps of either sign; mode and photon counts of the slice are
+        # those of the selected occupations
+        bounds = [None, 0, 1, 2, -1, -2, len(a), len(a) + 1, -len(a) - 1]
+        for lo_, hi_, st_ in itertools.product(bounds, bounds, (None, 1, 2, -1, -2)):
+            sl = slice(lo_, hi_, st_)
+            try:
+                got = A[sl]
+            except Exception as e:  # noqa: BLE001
+                fails.append((a, f"slice {sl} raised {type(e).__name__}"))
+                break
+            if not isinstance(got, lw.State) or got.s != a[sl] or got.n_modes != len(a[sl]) or got.n_photons != sum(a[sl]):
+                fails.append((a, f"state[{lo_}:{hi_}:{st_}] = {got}, the list gives {a[sl]}"))
+                break
+        # the same occupations given as numpy integers / a numpy integer array: an equal state, hence an equal hash (and equal text)
+        import numpy as _np
+        for variant, mk in (("numpy int64 entries", lambda: lw.State([_np.int64(x) for x in a])), ("numpy integer array", lambda: lw.State(_np.array(a, dtype=int))),
+                            ("numpy int32 entries", lambda: lw.State([_np.int32(x) for x in a]))):
+            try:
+                V = mk()
+            except Exception:  # noqa: BLE001
+                continue        # refused: allowed
+            try:
+                same = (V == A)
+            except Exception:  # noqa: BLE001
+                same = False
+            if same and (hash(V) != hash(A) or str(V) != str(A) or len({V, A}) != 1 or {A: 1}.get(V) != 1):
+                fails.append((a, f"State built from {variant} equals State({a}) but hashes / prints differently ({V!s} vs {A!s})"))
+            if same and len(a) and ((V + A).s != a + a or hash(V + A) != hash(A + A)):
+                fails.append((a, f"State built from {variant}: sum with the list state hashes differently"))
         for b in lists:
             B = lw.State(list(b))
             n += 1
